@@ -16,6 +16,7 @@ import (
 	"runtime"
 	"sort"
 	"strings"
+	"sync/atomic"
 	"testing"
 	"time"
 
@@ -61,6 +62,7 @@ type c19Rig struct {
 	model    []c19Host         // per name
 	dialogN  int
 	retained map[string]Backend
+	notified int64 // notifications that ran to their end (counted by the sentinel callback)
 }
 
 type c19Host struct {
@@ -114,21 +116,36 @@ func newC19Rig(proto string, nNames int, c int) (*c19Rig, error) {
 		return nil, err
 	}
 	r.rb = rb
+	// a sentinel callback behind the rotation's own: the resolver calls the
+	// callbacks of one notification in registration order from one goroutine,
+	// so when the sentinel runs the rotation has been told everything
+	for _, name := range r.names {
+		r.res.Lock()
+		e := r.res.hostIPs[name]
+		e.callbacks = append(e.callbacks, func(string, []string, []string) { atomic.AddInt64(&r.notified, 1) })
+		r.res.Unlock()
+	}
 	r.proxy = NewProxy("svc.test", 1200, "", false, NewPreConfigRoute(), NewPreConfigHostResolver(), NewSelfLearnRoute(), true, false)
 	r.proxy.AddItem(&ProxyItem{backend: rb, transports: []ServerTransport{r.bar}})
 	r.model = make([]c19Host, len(r.names))
 	return r, nil
 }
 
-// quiesce waits until the notification goroutines of the step are gone, the
-// change-event channel is empty and the proxy loop has gone round once more.
-func (r *c19Rig) quiesce(baseline int) error {
-	deadline := time.Now().Add(10 * time.Second)
-	for runtime.NumGoroutine() > baseline || len(r.proxy.backendChangeChannel) > 0 {
-		if time.Now().After(deadline) {
-			return fmt.Errorf("notification did not settle within 10 s (%d goroutines, baseline %d, %d change events queued)", runtime.NumGoroutine(), baseline, len(r.proxy.backendChangeChannel))
-		}
-		time.Sleep(20 * time.Microsecond)
+// quiesce waits until the step's notification (if the reference machine
+// expects one: the address set changed) has run to its end - the sentinel
+// callback counts them -, the change-event channel is empty and the proxy loop
+// has gone round once more. When no notification is expected the goroutine count
+// is given a moment to fall back (a notification nobody expected is then still
+// seen by the membership check of this or the next step).
+func (r *c19Rig) quiesce(baseline int, notifiedBefore int64, expectChange bool) error {
+	if expectChange {
+		// a missing notification is reported by the membership check that follows
+		patientUntil(10*time.Second, 20*time.Microsecond, func() bool { return atomic.LoadInt64(&r.notified) > notifiedBefore })
+	} else {
+		patientUntil(20*time.Millisecond, 20*time.Microsecond, func() bool { return runtime.NumGoroutine() <= baseline })
+	}
+	if !patientUntil(10*time.Second, 20*time.Microsecond, func() bool { return len(r.proxy.backendChangeChannel) == 0 }) {
+		return fmt.Errorf("the proxy loop left %d backend change events unhandled for 10 s", len(r.proxy.backendChangeChannel))
 	}
 	return r.barrier()
 }
@@ -142,12 +159,10 @@ func (r *c19Rig) inLoop(fn func()) error {
 	b := &c19Barrier{ch: make(chan struct{}, 1), fn: fn}
 	m := &Message{response: &StatusLine{version: "SIP/2.0", statusCode: 100, reason: "Barrier"}, headers: []*Header{}, body: []byte{}}
 	r.proxy.HandleRawMessage(NewRawMessage("127.0.0.9", 9, b, false, m))
-	select {
-	case <-b.ch:
-		return nil
-	case <-time.After(10 * time.Second):
+	if _, ok := patientRecv(b.ch, 10*time.Second); !ok {
 		return errors.New("proxy loop did not take the barrier message within 10 s")
 	}
+	return nil
 }
 
 func (r *c19Rig) expected() []string {
@@ -165,6 +180,7 @@ func (r *c19Rig) expected() []string {
 func (r *c19Rig) apply(ni int, ips []string, fail bool) string {
 	// reference machine
 	h := &r.model[ni]
+	before := strings.Join(sortedCopy(h.addrs), ",")
 	if fail {
 		h.failed++
 		if h.failed > 3 && len(h.addrs) > 0 {
@@ -173,23 +189,24 @@ func (r *c19Rig) apply(ni int, ips []string, fail bool) string {
 	} else {
 		h.addrs, h.failed = append([]string{}, ips...), 0
 	}
+	expectChange := strings.Join(sortedCopy(h.addrs), ",") != before
 	for k, b := range r.rb.GetAllBackend() {
 		r.retained[k] = b
 	}
 	baseline := runtime.NumGoroutine()
+	notifiedBefore := atomic.LoadInt64(&r.notified)
 	if fail {
 		r.res.addressResolved(r.names[ni], nil, errors.New("verif: resolution failed"))
 	} else {
 		r.res.addressResolved(r.names[ni], append([]string{}, ips...), nil)
 	}
-	if err := r.quiesce(baseline); err != nil {
+	if err := r.quiesce(baseline, notifiedBefore, expectChange); err != nil {
 		return err.Error()
 	}
-	// goroutine-count quiescence can be fooled when unrelated goroutines end
-	// meanwhile (readers of closed TCP connections): a mismatch is re-examined
-	// for up to 3 s before it counts - correct code converges at once
+	// a mismatch is re-examined for up to 3 s of running time before it counts
+	// (correct code converges at once; an unexpected late notification may not)
 	f := r.checkMembership()
-	for deadline := time.Now().Add(3 * time.Second); f != "" && time.Now().Before(deadline); {
+	for p := newPatience(3 * time.Second); f != "" && !p.spent(); {
 		time.Sleep(2 * time.Millisecond)
 		if err := r.barrier(); err != nil {
 			return err.Error()
@@ -197,6 +214,12 @@ func (r *c19Rig) apply(ni int, ips []string, fail bool) string {
 		f = r.checkMembership()
 	}
 	return f
+}
+
+func sortedCopy(a []string) []string {
+	out := append([]string{}, a...)
+	sort.Strings(out)
+	return out
 }
 
 func (r *c19Rig) checkMembership() string {
@@ -245,10 +268,9 @@ func (r *c19Rig) checkBehaviour() string {
 		}
 	}
 	counts := map[string]int{}
-	deadline := time.Now().Add(20 * time.Second)
 	total := 0
 	for total < 2*k {
-		rx, ok := r.hub.waitOne(time.Until(deadline))
+		rx, ok := r.hub.waitOne(20 * time.Second)
 		if !ok {
 			return fmt.Sprintf("only %d of %d dispatches arrived at the resolved addresses %v within 20 s: %v", total, 2*k, want, counts)
 		}
